@@ -1,4 +1,5 @@
 """Instance families for the MILP model classes (JSON-able), with the metadata the oracles need."""
+import hashlib
 import collections, itertools
 import networkx as nx
 from fpverif import gen
@@ -165,7 +166,27 @@ def spec_of(base, drop_attr=(), extra_eattr=None, extra_nattr=None, garbage=None
             d["flow"] = garbage.get(v, base["flow"][v])
         d.update((extra_nattr or {}).get(v, {}))
         na[v] = d
-    return gen.spec(base["nodes"], base["edges"], nattr=na, eattr=extra_eattr)
+    ea = {e: dict(d) for e, d in (extra_eattr or {}).items()}
+    for e, val in _edge_junk(base).items():
+        # node-weighted input whose EDGES happen to carry an attribute of the same name (unrelated positive values): in node mode the edges
+        # of the caller's graph carry no weight, whatever their attributes say
+        ea.setdefault(e, {}); ea[e].setdefault("flow", val)
+    return gen.spec(base["nodes"], base["edges"], nattr=na, eattr=ea or None)
+
+
+def _edge_junk(base):
+    """for about one node-weighted base in six (chosen by a hash of the base, no random numbers consumed): {edge: unrelated positive value}"""
+    if base.get("mode") != "node" or not base.get("edges"):
+        return {}
+    h = int(hashlib.sha1(repr((base["nodes"], base["edges"], sorted(map(str, base["flow"].items())))).encode()).hexdigest(), 16)
+    if h % 6:
+        return {}
+    out = {}
+    for i, e in enumerate(base["edges"]):
+        r = (h >> (8 + 3 * i)) % 8
+        if r < 6:
+            out[e] = (r + 1) * (1 if base.get("wt") == "int" else 0.5)
+    return out
 
 
 # --------------------------------------------------------------------------------------------- features
